@@ -104,8 +104,13 @@ func Harness_C20_FeeFloor() {
 	node, chain := symPrices("node", d, bounds()), symPrices("chain", d, bounds())
 	fee := symFee(d, bounds())
 	gas := verifSymU64("gas")
-	check := verifSymBool("isCheckTx")
+	check, recheck := verifSymBool("isCheckTx"), verifSymBool("isReCheckTx")
 	ctx := verifSym[sdk.Context]("ctx").WithIsCheckTx(check).WithMinGasPrices(node)
+	verifAssume(!(check && recheck)) // WithIsReCheckTx(true) sets the check flag as well: one context, explored once
+	if recheck {
+		ctx = ctx.WithIsReCheckTx(true) // a mempool re-check after a block is transaction checking too (the SDK sets both flags)
+	}
+	check = check || recheck
 	tx := symTx{fee: fee, gas: gas}
 	_, _, err := NewMempoolFeeChecker(symAnteKeeper{chain}).CheckTxFeeWithMinGasPrices(ctx, tx)
 	if !check {
@@ -143,12 +148,12 @@ func Harness_C20_FeeFloor() {
 func Harness_C20_FeeRounding() {
 	// price = num / 10^prec
 	grid := []struct{ num, prec, pow int64 }{
-		{5, 4, 10000},         // 0.0005
-		{25, 5, 100000},       // 0.00025
-		{15, 1, 10},           // 1.5
-		{333333, 6, 1000000},  // 0.333333
-		{3, 0, 1},             // integral
-		{1, 9, 1000000000},    // 10^-9
+		{5, 4, 10000},        // 0.0005
+		{25, 5, 100000},      // 0.00025
+		{15, 1, 10},          // 1.5
+		{333333, 6, 1000000}, // 0.333333
+		{3, 0, 1},            // integral
+		{1, 9, 1000000000},   // 10^-9
 	}
 	g := grid[verifChoice("price", len(grid))]
 	price := math.LegacyNewDecWithPrec(g.num, g.prec)
